@@ -9,7 +9,7 @@ parameter flow, field liveness."""
 import os
 
 from ..engine import VERIF, load_json
-from ..facts import site
+from ..facts import show, site, unwrap, walk
 from ..symx import all_calls, closure_paths, cshow, paths_of, tshow
 from ..terms import display_norm, is_call, mentions, opt_polarity, same, subterms
 
@@ -376,6 +376,36 @@ def check_builder(run, F, bty, spec, T):
     return len(fields)
 
 
+LIST_REORDER = {"sort", "sort_by", "sort_by_key", "sort_unstable", "sort_unstable_by", "sort_unstable_by_key", "sort_by_cached_key", "reverse", "dedup", "dedup_by",
+                "dedup_by_key", "retain", "retain_mut", "swap", "swap_remove", "rotate_left", "rotate_right", "truncate", "drain", "split_off", "pop", "remove", "clear"}
+
+
+def check_operation_types(run, F, rule="R-BUILDERS"):
+    """Type-level part of the wiring: the fields that carry the caller's lists keep order and multiplicity (Vec), optional scalars are Option of
+    the parameter's own type (no NonZero / narrowed / set types that cannot represent every argument)."""
+    n = 0
+    for path, a in sorted(F.adts.items()):
+        if not path.startswith("ipp::operation::"):
+            continue
+        for v in a["variants"]:
+            for f in v["fields"]:
+                ty = f["ty"]
+                n += 1
+                bad = [w for w in ("BTreeSet", "HashSet", "BTreeMap", "HashMap", "NonZero", "BinaryHeap", "VecDeque", "Cow<") if w in ty]
+                run.ob(rule, "%s.%s: field type keeps every argument as given" % (path.split("::", 2)[-1], f["name"]), not bad,
+                       "field type %s: a %s cannot hold what the caller passed in the order / multiplicity / value it was passed (sets sort and de-duplicate, NonZero cannot hold 0)" % (
+                           ty[:100], "/".join(bad)), "%s:%s" % (a["file"], a["line"]), key="%s|type|%s.%s" % (rule, path, f["name"]))
+    for path, body in F.hir.items():
+        if not path.startswith("ipp::operation::") or "::tests::" in path:
+            continue
+        for x in walk(body["body"]):
+            if x.get("k") == "mcall" and x["name"] in LIST_REORDER and str(unwrap(x["recv"]).get("ty") or "").replace("&mut ", "").replace("&", "").startswith(("std::vec::Vec<", "[")):
+                run.ob(rule, "%s: the caller's lists are passed on in the order given" % path.split("::", 2)[-1], False,
+                       "%s on %s: %s (reordering or dropping elements changes which of two same-named attributes wins, and the order on the wire)" % (
+                           x["name"], unwrap(x["recv"]).get("ty"), show(x)[:100]), site(body, x), key="%s|reorder|%s|%s" % (rule, path, x["name"]))
+    return n
+
+
 def check(run, views, tier):
     T = load_json(os.path.join(VERIF, "tables", "ops.json"))
     run.explanation = (
@@ -390,6 +420,7 @@ def check(run, views, tier):
     for cfg, crates in views.items():
         run.cfg = cfg
         F = crates["ipp"]
+        check_operation_types(run, F)
         # attribute name constants
         for cpath, val in T["names"].items():
             run.ob("R-OPWIRE", "%s = '%s'" % (cpath.split("::")[-1], val), F.const_value(cpath) == val, "evaluates to %r" % F.const_value(cpath),
